@@ -17,6 +17,7 @@
                                        controller pc;
       [in_force h pc]                  the max-pause argument of the command that issued the most recent Pause;
       [closer h g]                     the state set by the call that closed generation g (None: still open);
+      [close_time h g]                 the time of that call;
       [quiet r l]                      no event of l is about request r (gate read / wake / result, pick,
                                        lb-claim, claim, claim-refused, respond);
       [pathonly r l]                   the events of l about r are pick / lb-claim / claim / claim-refused;
@@ -37,10 +38,12 @@ Local Open Scope N_scope.
     - it read the controller's current state and generation, and its max-pause
       is the one in force at the read;
     - woken by channel only if its generation had been closed (by a resume or a
-      stop) before the wake; woken by its timer exactly at read time + max-pause;
+      stop) before the wake; woken by its timer exactly at read time + max-pause,
+      and then its generation had not been closed at a strictly earlier time (a
+      close wakes the select at that very instant; only a tie is possible);
     - the gate result: timer => timed out; channel => stopped iff the state at
       the wake (= at the re-read) is stopped, else proceed; nothing else;
-    - stopped => 503, timed out => 504. *)
+    - stopped => 503, timed out => 504, and these answers name no target. *)
 Theorem c07_outcome : forall tr r e,
   gate_accepts tr = true -> In e tr -> is_pread r e ->
   exists pre held aw mid rest h w a status t3 svc t5 who sb,
@@ -54,7 +57,9 @@ Theorem c07_outcome : forall tr r e,
     a = (if w_chan w
          then match state_at (rev (pre ++ ev_read r h :: held)) (h_pc h) with GStopped => AStopped | _ => AProceed end
          else ATimedOut) /\
-    (a = AStopped -> status = 503) /\ (a = ATimedOut -> status = 504).
+    (a = AStopped -> status = 503) /\ (a = ATimedOut -> status = 504) /\
+    (w_chan w = false -> forall tc, close_time (rev (pre ++ ev_read r h :: held)) (h_gen h) = Some tc -> w_t w <= tc) /\
+    (a <> AProceed -> sb = []).
 Proof. exact parked_story_flat. Qed.
 Print Assumptions c07_outcome.
 
@@ -126,7 +131,8 @@ Theorem c07_redeploy_keeps_held : forall s e s',
   gstep s e = Some s' ->
   (forall pc st ch, e_k e <> KGateSet pc st ch) -> (forall c a b fa, e_k e <> KParams c a b fa) ->
   req_of e = None ->
-  g_ctl s' = g_ctl s /\ g_closed s' = g_closed s /\ forall r, nget (g_req s') r = nget (g_req s) r.
+  g_ctl s' = g_ctl s /\ g_closed s' = g_closed s /\ g_ctime s' = g_ctime s /\
+  forall r, nget (g_req s') r = nget (g_req s) r.
 Proof. exact non_gate_event_inert. Qed.
 Print Assumptions c07_redeploy_keeps_held.
 
@@ -360,7 +366,9 @@ Example c07_timer_accepted : gate_accepts wit_timer = true.
 Proof. vm_compute. reflexivity. Qed.
 
 (** doctored traces are rejected: the timer firing 1 ns late, a channel wake without a resume,
-    a repeated pause that opens a new generation, "proceed" after a stop, a 200 after "stopped" *)
+    a repeated pause that opens a new generation, "proceed" after a stop, a 200 after "stopped",
+    a 504 after "timed out" that names a target, and the timer of request 3 (read at 1 s + 1 ns, max-pause 5 s)
+    firing at its deadline although the resume had closed its generation 4 s earlier (rejected AT the wake) *)
 Definition doctor (i : nat) (e : event) (tr : trace) : trace := firstn i tr ++ e :: skipn (S i) tr.
 
 Example c07_doctored_rejected :
@@ -369,5 +377,7 @@ Example c07_doctored_rejected :
   gate_accepts (doctor 7 (mkEv 1000000001 (ACmd 3) (KGateSet 0 GPaused (Some 1%nat))) wit_timer) = false /\
   gate_accepts (doctor 10 (mkEv 2000000000 (AReq 1) (KGateResult 1 0 AProceed)) wit_timer) = false /\
   gate_accepts (doctor 11 (mkEv 2000000000 (AReq 1) (KRespond 1 200 [])) wit_timer) = false /\
+  gate_accepts (doctor 11 (mkEv 2000000000 (AReq 1) (KRespond 1 504 [x74;x61])) wit_timer) = false /\
+  first_reject gstep ginit (doctor 18 (mkEv 6000000001 (AReq 3) (KGateWake 0 false)) wit_timer) 0 = Some 18%nat /\
   gate_accepts (firstn 18 wit_timer) = false.
 Proof. repeat split; vm_compute; reflexivity. Qed.
